@@ -1200,6 +1200,7 @@ func runC19(w *World, r *Report) {
 	fanoutCountCheck(w, r, "C19.copies-match-consumers")
 
 	// ---- a copy is never silently replaced, and reserved copies that nobody gets are closed
+	shareRule(w, r, "C19.skip-reaches-control-only-successors", "a skip is reported to every successor of the skipped node, control-only ones included (getSuccessors lists data and control successors): a node that is never told keeps the stream copy made for it unread and unclosed, and the producer stays blocked once the caller closes early", 1, "C02", "C02.successors-complete")
 	r.Rule("C19.no-dropped-copy", "resolveCompletedTasks: a successor reached twice (two branches, or a branch plus a data edge) keeps one copy and the other is closed; copies reserved for branches that selected nothing are closed", 2)
 	{
 		rct := w.Fn("compose", "runner.resolveCompletedTasks")
